@@ -150,6 +150,21 @@ def models(mb: ModelBuilder) -> dict[str, AObj]:
     mb.relation(hh, [mb.feature("t1"), mb.feature("t2"), mb.feature("t3")], 3, 3)
     mb.relation(hh, [mb.feature("u1"), mb.feature("u2"), mb.feature("u3")], 1, -1)
     ms["select-all-groups"] = mb.model(r, [])
+    # an even number of leaves whose two middle depths differ (the median lies between them), and four leaves 1,2,2,3
+    r = mb.feature("R")
+    mb.relation(r, [mb.feature("A")], 0, 1)
+    b_ = mb.feature("B")
+    mb.relation(r, [b_], 1, 1)
+    mb.relation(b_, [mb.feature("C")], 1, 1)
+    ms["leaf-depths-1-2"] = mb.model(r, [])
+    r = mb.feature("R")
+    mb.relation(r, [mb.feature("L1")], 0, 1)
+    x_, y_ = mb.feature("X"), mb.feature("Y")
+    mb.relation(r, [x_], 1, 1)
+    mb.relation(x_, [mb.feature("L2")], 1, 1)
+    mb.relation(x_, [y_], 0, 1)
+    mb.relation(y_, [mb.feature("L3"), mb.feature("L4")], 1, 1)
+    ms["leaf-depths-1-2-3-3"] = mb.model(r, [])
     # constraints that are equal under Constraint.__eq__ (same text up to case, or stated twice) are
     # still separate constraints of the model: each counts for the features it names
     app = mb.feature("App")
